@@ -10,7 +10,7 @@ operations, including operations on repositories the queue does not know.
 Model: C30/Model.lean (queue.go, backoff.go and the container/heap functions they drive, `heapIdx` maintained by
 `Swap`/`Push`/`Pop` as in the Go text; `MaybeRemoveMissing` as fixed).  Lemmas: C30/Lemmas, Heap, Ops, Steps.
 -/
-import ZoektModel.C30.Steps
+import ZoektModel.C30.OptsInv
 namespace ZoektModel.C30
 
 /-- every state reachable from `NewQueue` by any operation history -/
@@ -264,6 +264,18 @@ theorem remove_missing_as_written_false :
     tracked (removeMissingAsWritten q []).1 7 = true ∧ (removeMissingAsWritten q []).2 = [0] ∧
     tracked (removeMissing q []).1 7 = false ∧ (removeMissing q []).2 = [7] := by
   decide
+
+/-- **yields each enqueued repository** (partial): in every reachable state the options `Pop` hands out are those stored
+    for the queued repository `a` it takes off the heap, and they are either options *for `a`* (`o.rid = a`, set by the
+    last `AddOrUpdate` for `a`) or the zero value.  The zero value is exactly the known finding C30-pop-zero-opts (an item
+    created by `SetIndexed` and queued by `Bump`): for every other item the repository yielded is the one enqueued. -/
+theorem pop_yields_own_or_zero_opts {q : Q} (h : Reachable q) (o : Opts) (d : Int) (hod : (pop q).2 = some (o, d)) :
+    ∃ a, InPq q.pq a ∧ (itemD q a).opts = o ∧ (o.rid = a ∨ o = Opts.zero) ∧ ¬ InPq (pop q).1.pq a := by
+  obtain ⟨a, h1, h2, _, h4, _⟩ := (pop_min h).2 o d hod
+  obtain ⟨d0, m0, ops, rfl⟩ := h
+  have := optsOK_run _ ops (optsOK_newQ d0 m0) a
+  rw [h2] at this
+  exact ⟨a, h1, h2, this.symm, h4⟩
 
 unseal up down in
 /-- **known finding C30-pop-zero-opts**: `Bump` queues an item that `SetIndexed` created for an unknown repository, and
